@@ -65,6 +65,43 @@ func ruleWalkLastIndex(p *Prog, r *Report, fns []*ssa.Function) {
 					proved = true
 				}
 			}
+			// a helper that is handed "the rest of the path" and never indexes it: a further segment remains iff that rest is
+			// non-empty, which its call sites establish
+			if !proved && len(idx) == 1 && !p.Exported(fn) {
+				sites := p.staticSites(fn)
+				all := len(sites) > 0
+				for _, site := range sites {
+					pi := -1
+					for i, prm := range fn.Params {
+						if prm == keys {
+							pi = i
+						}
+					}
+					if pi < 0 || pi >= len(site.Call.Args) || site.Parent() == fn {
+						all = false
+						continue
+					}
+					zc := p.zoneFlowOf(site.Parent(), nil)
+					arg := site.Call.Args[pi]
+					okSite := false
+					if la := zc.lenTerm(arg); la.ok && zc.leq(site, zterm{0, 1, true}, la) {
+						okSite = true
+					}
+					// x[low:] is non-empty where low + 1 <= len(x)
+					if sl, isSl := arg.(*ssa.Slice); isSl && sl.High == nil && sl.Low != nil {
+						lo, lx := zc.term(sl.Low), zc.lenTerm(sl.X)
+						if lo.ok && lx.ok && zc.leq(site, zterm{lo.n, lo.off + 1, true}, lx) {
+							okSite = true
+						}
+					}
+					if !okSite {
+						all = false
+					}
+				}
+				if all {
+					proved = true
+				}
+			}
 			if proved {
 				r.OK(rule, name, c, p.Pos(ta.Pos()), "the selected value's type is tested only where a further path segment remains (index+1 < len(segments) by the zone analysis)")
 			} else {
